@@ -361,6 +361,9 @@ def do_op(obj, op):
         return ("consume", obj.consume(op[1]))
     if k == "remaining":
         return ("remaining", obj.remaining())
+    if k == "tick":
+        E.CLOCK.now += op[1] * TAU
+        return ("tick", op[1])
     raise ValueError(op)
 
 
